@@ -1867,10 +1867,14 @@ func c17ChildExit(c *Ctx, r *Report) {
 type errPathState struct {
 	alias map[ssa.Value]bool // SSA values equal to the error on this path
 	cells map[ssa.Value]bool // local cells (allocs) currently holding it
+	nn    map[ssa.Value]bool // other values found non-nil on this path
 }
 
 func (s *errPathState) clone() *errPathState {
-	n := &errPathState{alias: map[ssa.Value]bool{}, cells: map[ssa.Value]bool{}}
+	n := &errPathState{alias: map[ssa.Value]bool{}, cells: map[ssa.Value]bool{}, nn: map[ssa.Value]bool{}}
+	for k := range s.nn {
+		n.nn[k] = true
+	}
 	for k := range s.alias {
 		n.alias[k] = true
 	}
@@ -1920,6 +1924,13 @@ func errLostOnSomePath(c *Ctx, fn *ssa.Function, call *ssa.Call) string {
 				} else {
 					delete(st.alias, phi)
 				}
+				if st.nn != nil {
+					if pi >= 0 && st.nn[phi.Edges[pi]] {
+						st.nn[phi] = true
+					} else {
+						delete(st.nn, phi)
+					}
+				}
 			}
 		}
 		for i := startIdx; i < len(b.Instrs); i++ {
@@ -1966,6 +1977,20 @@ func errLostOnSomePath(c *Ctx, fn *ssa.Function, call *ssa.Call) string {
 				if bo, ok := x.Cond.(*ssa.BinOp); ok && (bo.Op == token.NEQ || bo.Op == token.EQL) && (st.alias[bo.X] || st.alias[bo.Y]) {
 					return // examined
 				}
+				// another error value compared with nil: which side knows it to be set
+				if bo, ok := x.Cond.(*ssa.BinOp); ok && (bo.Op == token.NEQ || bo.Op == token.EQL) && isErrorType(bo.X.Type()) {
+					if k, isK := bo.Y.(*ssa.Const); isK && k.IsNil() {
+						s0, s1 := st.clone(), st.clone()
+						if bo.Op == token.NEQ {
+							s0.nn[bo.X] = true
+						} else {
+							s1.nn[bo.X] = true
+						}
+						walk(b.Succs[0], b, 0, s0, seen2)
+						walk(b.Succs[1], b, 0, s1, seen2)
+						return
+					}
+				}
 			case *ssa.Return:
 				for _, res := range x.Results {
 					if st.alias[res] {
@@ -1973,7 +1998,7 @@ func errLostOnSomePath(c *Ctx, fn *ssa.Function, call *ssa.Call) string {
 					}
 				}
 				// a return that already reports some other failure is not silent
-				if n := len(x.Results); n > 0 && isErrorType(x.Results[n-1].Type()) && !ReturnsNilError(x) && !retMayBeNil(x) {
+				if n := len(x.Results); n > 0 && isErrorType(x.Results[n-1].Type()) && !ReturnsNilError(x) && (!retMayBeNil(x) || st.nn[x.Results[n-1]]) {
 					return
 				}
 				if len(st.alias) == 0 && len(st.cells) == 0 {
@@ -1998,7 +2023,7 @@ func errLostOnSomePath(c *Ctx, fn *ssa.Function, call *ssa.Call) string {
 			idx = i + 1
 		}
 	}
-	st := &errPathState{alias: map[ssa.Value]bool{ev: true}, cells: map[ssa.Value]bool{}}
+	st := &errPathState{alias: map[ssa.Value]bool{ev: true}, cells: map[ssa.Value]bool{}, nn: map[ssa.Value]bool{}}
 	if ev != ssa.Value(call) {
 		// the extract may come later in the block; alias is keyed by the extract value itself
 	}
